@@ -8,6 +8,7 @@ import (
 	"fmt"
 	"os"
 	"path/filepath"
+	"reflect"
 	"strings"
 	"testing"
 
@@ -507,11 +508,80 @@ func TestRoundTrip(t *testing.T) {
 					rt.Fail(t, "C04/"+c.name+"/law", "%v", err)
 					return
 				}
+				// decoded values are independent of one another: the application edits the first result in place
+				// (every byte of every slice, every list element), then the SAME bytes are decoded again
+				scribble(obj)
+				obj3, ok := c.dec(append([]byte{}, enc...))
+				if !ok {
+					rt.Fail(t, "C04/"+c.name+"/decode-after-edit", "decoder rejects bytes it accepted before, after the first decoded value was edited in place: %s", rt.Hex(enc))
+					return
+				}
+				if can, err := c.canonical(obj3, enc); err != nil || !bytes.Equal(can, enc) {
+					rt.Fail(t, "C04/"+c.name+"/decode-after-edit", "decode(encode(v)) != v once an earlier result of decoding the same bytes was edited in place (%v): in %s out %s", err, rt.Hex(enc), rt.Hex(can))
+					return
+				}
+				if c.marshal != nil {
+					if m := c.marshal(obj3); !bytes.Equal(m, enc) {
+						rt.Fail(t, "C04/"+c.name+"/decode-after-edit", "Marshal() of a freshly decoded value returns %s instead of %s once an earlier result of decoding the same bytes was edited in place", rt.Hex(m), rt.Hex(enc))
+						return
+					}
+				}
 				s.Nontrivial(enc)
 				s.Sample(func() any { return rt.Hex(enc) })
 			})
 		})
 	}
+}
+
+// scribble edits a decoded value in place the way its owner may: every byte of every byte slice reachable from it is
+// inverted and every settable string is replaced. (Slices are shared by copies of the struct, so this reaches the
+// memory a decoder would have had to share to make two results depend on each other.)
+func scribble(obj any) {
+	v := reflect.ValueOf(obj)
+	if v.Kind() != reflect.Ptr {
+		p := reflect.New(v.Type())
+		p.Elem().Set(v)
+		v = p
+	}
+	var walk func(v reflect.Value, depth int)
+	walk = func(v reflect.Value, depth int) {
+		if depth > 8 {
+			return
+		}
+		switch v.Kind() {
+		case reflect.Ptr, reflect.Interface:
+			if !v.IsNil() {
+				walk(v.Elem(), depth+1)
+			}
+		case reflect.Struct:
+			if v.Type().PkgPath() == "math/big" || v.Type().PkgPath() == "crypto/rsa" {
+				return
+			}
+			for i := 0; i < v.NumField(); i++ {
+				walk(v.Field(i), depth+1)
+			}
+		case reflect.Slice:
+			if v.Type().Elem().Kind() == reflect.Uint8 {
+				b := v.Bytes()
+				for i := range b {
+					b[i] ^= 0xFF
+				}
+				return
+			}
+			for i := 0; i < v.Len(); i++ {
+				walk(v.Index(i), depth+1)
+			}
+		case reflect.Array:
+			for i := 0; i < v.Len(); i++ {
+				walk(v.Index(i), depth+1)
+			}
+		case reflect.String:
+			if v.CanSet() {
+				v.SetString("edited-by-the-application")
+			}
+		}
+	}
+	walk(v, 0)
 }
 
 func TestAcceptedBytesLaw(t *testing.T) {
